@@ -78,6 +78,19 @@ C23_ReplaceCount ==
        /\ \A c \in 0..3 : Len(Replace(txt, a, <<120, 120>>, c)) = Len(txt) + MinI(c, n)
        /\ Len(Replace(txt, a, <<120, 120>>, -1)) = Len(txt) + n
 
+\* the count means the same whether or not autoescaping is on and whichever of the subject, the search
+\* string and the replacement is safe (text with `<` is escaped to 4 characters, so lengths differ)
+C23_ReplaceCountMarkup ==
+    \A ae \in BOOLEAN, s \in {S(txt), M(txt)}, old \in {S(<<97>>), M(<<97>>), S(<<cLT>>)},
+       new \in {S(<<cLT, 120>>), M(<<cLT, 120>>)}, c \in -1..2 :
+        LET out == ReplaceV(ae, s, old, new, c)
+            safe == ae /\ AnySafe(s, old, new)
+            tx(a) == IF safe THEN EscapeV(a).v ELSE a.v
+        IN /\ out.t = (IF safe THEN "m" ELSE "s")
+           /\ ReplaceCountOK(tx(s), old.v, tx(new), c, out.v)
+           /\ c = 0 => out.v = tx(s)
+           /\ (c >= 0 /\ c < OccCount(tx(s), old.v)) => out.v # ReplaceV(ae, s, old, new, -1).v
+
 C23_WordCount ==
     /\ WordCount(txt) = Cardinality({k \in 1..Len(txt) : IsWordC(txt[k]) /\ (k = Len(txt) \/ ~IsWordC(txt[k + 1]))})
     /\ WordCount(txt) = 0 <=> \A k \in 1..Len(txt) : ~IsWordC(txt[k])
@@ -125,6 +138,14 @@ C23_NumTextDef ==
                           /\ UrlQuoteQS(UrlTextOf(I(n))) # UrlQuoteQS(UrlTextOf([t |-> "f", v |-> 1000 * n]))
                           /\ \A b \in BOOLEAN : UrlQuote(UrlTextOf(B(b))) \notin {UrlQuote(UrlTextOf(I(n))),
                                                                               UrlQuote(UrlTextOf([t |-> "f", v |-> 1000 * n]))}
+    \* format: one item per positional argument, tuples and lists are printed
+    /\ FormatV(<<37, 115>>, <<[t |-> "t", v |-> <<I(1), I(2)>>]>>) = S(<<40, 49, 44, 32, 50, 41>>)          \* '%s' % ((1, 2),)
+    /\ FormatV(<<60, 37, 115, 62>>, <<[t |-> "t", v |-> <<>>]>>) = S(<<60, 40, 41, 62>>)                   \* <()>
+    /\ FormatV(<<37, 115>>, <<[t |-> "t", v |-> <<S(<<97>>)>>]>>) = S(<<40, 39, 97, 39, 44, 41>>)           \* ('a',)
+    /\ FormatV(<<37, 115>>, <<L(<<I(1), NoneV>>)>>) = S(<<91, 49, 44, 32, 78, 111, 110, 101, 93>>)          \* [1, None]
+    /\ FormatV(<<37, 115, 37, 115>>, <<[t |-> "t", v |-> <<I(1), I(2)>>]>>) = X("TypeError")
+    /\ FormatV(<<37, 115, 37, 37>>, <<I(1), I(2)>>) = X("TypeError") /\ FormatV(<<37, 37>>, <<>>) = S(<<37>>)
+    /\ FormatV(<<37, 115, 45, 37, 115>>, <<I(1), B(TRUE)>>) = S(<<49, 45, 84, 114, 117, 101>>)
     /\ UrlEncodePairs(<<<<I(1), [t |-> "f", v |-> 1000]>>, <<B(TRUE), NoneV>>>>)
           = <<49, 61, 49, 46, 48, 38, 84, 114, 117, 101, 61, 78, 111, 110, 101>>     \* 1=1.0&True=None
 \* constant-level facts: checked once when TLC starts
